@@ -125,7 +125,7 @@ pub fn pst13_ref<E: Pairing>(
 
 // --------------------------------------------------------------------------------------------- IPA
 
-fn ro_challenge<F: PrimeField>(bytes: &[u8]) -> F {
+pub fn ro_challenge<F: PrimeField>(bytes: &[u8]) -> F {
     let mut i = 0u64;
     loop {
         let mut inp = bytes.to_vec();
@@ -137,7 +137,7 @@ fn ro_challenge<F: PrimeField>(bytes: &[u8]) -> F {
         i += 1;
     }
 }
-fn ser<T: CanonicalSerialize>(b: &mut Vec<u8>, x: &T) {
+pub fn ser<T: CanonicalSerialize>(b: &mut Vec<u8>, x: &T) {
     x.serialize_uncompressed(&mut *b).unwrap();
 }
 
